@@ -131,16 +131,19 @@ def body_attrs(rng, pal, n, nc, allow_matrix, p=0.7):
     return kw
 
 
-def tagged_df(n, nc, row_base=0):
-    return {"cols": [{"name": f"N{j}", "dtype": "str",
+def tagged_df(n, nc, row_base=0, name_base=0):
+    return {"cols": [{"name": f"N{name_base + j}", "dtype": "str",
                       "values": [f"d{row_base + r}c{j}" for r in range(n)]} for j in range(nc)]}
 
 
 def header(rng, pal, nc, base=0):
-    mode = rng.choice(["default", "none", "explicit", "explicit"])
-    if mode != "explicit":
+    mode = rng.choice(["default", "none", "explicit", "explicit", "auto"])
+    if mode not in ("explicit", "auto"):
         return mode
     kw = {"text": [f"H{base}c{j}" for j in range(nc)]}
+    if mode == "auto":
+        # a header object WITHOUT labels (they come from the column names) that still carries colours
+        kw = {}
     if rng.random() < 0.6:
         kw["text_color"] = [pick(rng, pal) for _ in range(nc)] if rng.random() < 0.6 else pick(rng, pal)
     if rng.random() < 0.4:
@@ -151,7 +154,7 @@ def header(rng, pal, nc, base=0):
         if rng.random() < 0.2:
             kw[f"border_color_{side}"] = pick(rng, pal)
     rows = [kw]
-    for extra_row in range(rng.choice([0, 0, 1, 2])):
+    for extra_row in range(0 if mode == "auto" else rng.choice([0, 0, 1, 2])):
         # further header rows with colours of their own (a colour used ONLY here still has to be in the table)
         kw2 = {"text": [f"H{base + 1 + extra_row}c{j}" for j in range(nc)]}
         if rng.random() < 0.7:
@@ -198,7 +201,7 @@ def gen_multi(rng, pals):
     for s, pal in enumerate(pals):
         n = rng.randint(1, 6)
         nc = rng.randint(1, 4)
-        sections.append({"df": tagged_df(n, nc, base), "body": body_attrs(rng, pal, n, nc, True),
+        sections.append({"df": tagged_df(n, nc, base, name_base=10 * s), "body": body_attrs(rng, pal, n, nc, True),
                          "colheader": header(rng, pal, nc, base=10 * s)})
         base += n
     spec = {"kind": "multi", "sections": sections, "multi_header": "nested", "page": {"nrow": 80}}
@@ -265,7 +268,7 @@ def requests(spec):
         h = sec.get("colheader", "default")
         if isinstance(h, list):
             for kw in h:
-                for j, tag in enumerate(kw["text"]):
+                for j, tag in enumerate(kw.get("text") or [c["name"] for c in df["cols"]]):
                     req[tag] = {"fg": per_line(kw.get("text_color", ""), j),
                                 "bg": per_line(kw.get("text_background_color", ""), j),
                                 "font": per_line(kw.get("text_font", 1), j)}
@@ -273,8 +276,8 @@ def requests(spec):
                         if f"border_color_{side}" in kw:
                             req[tag]["b" + side[0]] = kw[f"border_color_{side}"]
         elif h == "default":
-            for j in range(nc):
-                req.setdefault(f"N{j}", {"fg": "", "bg": "", "font": 1})
+            for c in df["cols"]:
+                req.setdefault(c["name"], {"fg": "", "bg": "", "font": 1})
     return req
 
 
